@@ -221,6 +221,61 @@ func runC16(c *core.Ctx) core.Meta {
 		stp := c.Rule("R16.11", "the component keeps ticking while any of its steps made progress: where a function with a bool result collects its answer in a loop (over requests per cycle, banks, ports), the value carried around the loop is derived from itself on the back edge (p = step() || p). A plain assignment keeps only the last iteration's answer; the component reports no progress and is not ticked again although an earlier iteration left work to continue", 1)
 		checkProgressAccumulated(c, stp, "R16.11", p, "The component stops ticking with work pending; requests already accepted are never completed")
 	}
+	{
+		stp := c.Rule("R16.12", "a step that did something counts as progress: in every function with a bool result, the result of each call to a step of the package that can consume or send a message flows into the returned value, as data or through the short circuit p = step() || p. A step whose result only steers a loop (if !step() { break }) can take a message off a port while the tick reports no progress; the component is not ticked again and the messages behind it are never read", 1)
+		checkStepResultsCount(c, stp, "R16.12", p, "a response that was attached or a request that was forwarded in this tick does not keep the component ticking; with more input queued than one tick handles it goes to sleep and nothing wakes it (a port notifies only when a message arrives at an empty buffer)")
+	}
+	// R16.13 a reply that matches nothing is dropped
+	st13 := c.Rule("R16.13", "a reply for which the translator has no pending entry is taken off its port: in every handler that peeks a port and looks the message up with a find... helper of the package, every path from the edge on which the lookup returned nil to the handler's return passes RetrieveIncoming on the peeked port. Unmatched replies are normal (the entry was completed by the drain path while the bottom port was full, or discarded by a flush); one that stays at the head blocks every later reply, and the accesses waiting for those are never forwarded", 1)
+	for _, fn := range p.Funcs {
+		var peekPort string
+		for _, b := range fn.Blocks {
+			for _, in := range b.Instrs {
+				if cc := core.CallOf(in); cc != nil && cc.IsInvoke() && cc.Method.Name() == "PeekIncoming" {
+					peekPort = portOfCall(in)
+				}
+			}
+		}
+		if peekPort == "" {
+			continue
+		}
+		g := core.BuildGraph(fn, 0, nil)
+		for _, n := range g.Nodes {
+			iff, ok := n.Instr.(*ssa.If)
+			if !ok {
+				continue
+			}
+			cmp, ok := iff.Cond.(*ssa.BinOp)
+			if !ok || (cmp.Op != token.EQL && cmp.Op != token.NEQ) || !core.IsNilConst(cmp.Y) {
+				continue
+			}
+			call, ok := cmp.X.(*ssa.Call)
+			if !ok || call.Call.StaticCallee() == nil || call.Call.StaticCallee().Pkg != fn.Pkg || !strings.HasPrefix(call.Call.StaticCallee().Name(), "find") {
+				continue
+			}
+			nilSucc := n.Succs[0]
+			if cmp.Op == token.NEQ {
+				nilSucc = n.Succs[1]
+			}
+			st13.Instances++
+			c.MarkAnalysed(fn)
+			var leak *core.Node
+			okW := g.Walk([]core.State{{N: nilSucc}}, core.WalkOpts{ForwardOnly: true, Stop: func(m *core.Node) bool {
+				rc := core.CallOf(m.Instr)
+				return rc != nil && rc.IsInvoke() && rc.Method.Name() == "RetrieveIncoming" && portOfCall(m.Instr) == peekPort
+			}}, func(x core.State) {
+				if _, isRet := x.N.Instr.(*ssa.Return); isRet && leak == nil {
+					leak = x.N
+				}
+			})
+			st13.Ob(okW && leak == nil)
+			st13.Sample("%s: a message on %s for which %s finds nothing is retrieved on every path: %v", core.FuncName(fn), peekPort, call.Call.StaticCallee().Name(), leak == nil)
+			if leak != nil {
+				c.ReportAt("R16.13", fn, iff.Pos(), "unmatched-reply-not-dropped:"+core.FuncName(fn), core.FuncName(fn)+" can return ("+c.Position(leak.Instr.Pos())+") with a message on "+peekPort+" for which "+call.Call.StaticCallee().Name()+" found no entry still at the head of the port: every later message on that port is blocked behind it")
+			}
+		}
+	}
+
 	// R16.10 a handled message leaves its port
 	st10 := c.Rule("R16.10", "a message the translator looked at and reported progress for is taken off its port: in every handler, from PeekIncoming (message present) no path reaches `return true` without RetrieveIncoming on the same port (callees followed). A late reply to a discarded access that is left at the head of the bottom port blocks every later reply: the accesses forwarded after a restart are never answered, and the component reports progress for ever", 2)
 	checkPeekedHandledConsumed(c, st10, "R16.10", p, "the message stays at the head of the port: every later message on that port is blocked behind it and the handler reports progress on every tick")
